@@ -217,6 +217,10 @@ impl Chooser for Script {
     }
 }
 
+/// no scenario of the harness needs more than a few hundred thousand stream calls or more than 100 MiB of stream
+pub const CALL_BUDGET: usize = 3_000_000;
+pub const DATA_BUDGET: usize = 200 << 20;
+
 pub struct Core {
     pub data: Vec<u8>,
     pub pos: u64,
@@ -229,6 +233,8 @@ pub struct Core {
     /// kind of the injected I/O errors (a stream may fail with any kind)
     pub fault_kind: io::ErrorKind,
     pub fault_style: u8,
+    pub call_budget: usize,
+    pub data_budget: usize,
     /// async: state of an operation that is currently answering Pending
     pending: Option<(Kind, u32, usize, u32)>,
     pub record_data: bool,
@@ -293,6 +299,14 @@ impl Core {
     fn next_answer(&mut self, kind: Kind, len: usize, is_async: bool) -> Answer {
         let idx = self.calls;
         self.calls += 1;
+        // livelock guard: code under test that restarts its work on every poll (or loops on a stream answer) would
+        // otherwise grow the stream without bound. Past the budget every call fails, so the operation ends in an
+        // error (or a panic of its own) and is judged like any other failure of an operation that must succeed.
+        if self.calls > self.call_budget || self.data.len() > self.data_budget {
+            self.failed_once = true;
+            self.fault_kind = io::ErrorKind::Other;
+            self.fault_style = 0;
+        }
         // once failed, always failed (fail-stop) regardless of the chooser
         if self.failed_once {
             return Answer::Fail;
@@ -319,9 +333,20 @@ impl Handle {
             failed_once: false,
             fault_kind: fk,
             fault_style: fs,
+            call_budget: CALL_BUDGET,
+            data_budget: DATA_BUDGET,
             pending: None,
             record_data: false,
         })))
+    }
+    /// tighter livelock guard for an operation whose honest cost is known
+    pub fn budget(self, calls: usize, data: usize) -> Self {
+        {
+            let mut c = self.0.lock().unwrap();
+            c.call_budget = calls;
+            c.data_budget = data;
+        }
+        self
     }
     pub fn record_data(self) -> Self {
         self.0.lock().unwrap().record_data = true;
